@@ -1293,6 +1293,14 @@ int32 matrixClearSession(ssl_t *ssl, int32 remove)
     {
         return PS_ARG_FAIL;
     }
+#  ifdef USE_TLS_1_3
+    /* A TLS 1.3 connection never owns an entry of this cache: its sessionId
+       is the client's legacy_session_id, kept only to be echoed. */
+    if (NGTD_VER(ssl, v_tls_1_3_any))
+    {
+        return PS_ARG_FAIL;
+    }
+#  endif
     id = ssl->sessionId;
 
     i = ((uint32) id[3] << 24) + (id[2] << 16) + (id[1] << 8) + id[0];
@@ -1426,6 +1434,16 @@ int32 matrixUpdateSession(ssl_t *ssl)
         /* No table entry.  matrixRegisterSession was full of inUse entries */
         return PS_LIMIT_FAIL;
     }
+#  ifdef USE_TLS_1_3
+    /* A TLS 1.3 connection never owns an entry of this cache: its sessionId
+       is the client's legacy_session_id, kept only to be echoed. Using it as
+       an index would let any client overwrite the master secret and cipher
+       of a cached TLS 1.2 session of its choice. */
+    if (NGTD_VER(ssl, v_tls_1_3_any))
+    {
+        return PS_ARG_FAIL;
+    }
+#  endif
     id = ssl->sessionId;
     i = ((uint32) id[3] << 24) + (id[2] << 16) + (id[1] << 8) + id[0];
     if (i >= SSL_SESSION_TABLE_SIZE)
